@@ -552,6 +552,61 @@ impl monitor::bridge::CompactModel for Wrapped {
 	}
 }
 
+/// hand-written `CompactAs` with a *fallible* conversion: a byte-sized quantity that travels as
+/// `Compact<u32>`; values above 255 are refused by `decode_from`, so the accepted language is that
+/// of `Compact<u8>`
+#[derive(Debug, PartialEq, Clone, Copy)]
+pub struct Narrow(u32);
+impl CompactAs for Narrow {
+	type As = u32;
+	fn encode_as(&self) -> &u32 {
+		&self.0
+	}
+	fn decode_from(x: u32) -> Result<Self, parity_scale_codec::Error> {
+		if x > 255 {
+			Err("Narrow: out of range".into())
+		} else {
+			Ok(Narrow(x))
+		}
+	}
+}
+impl From<Compact<Narrow>> for Narrow {
+	fn from(x: Compact<Narrow>) -> Self {
+		x.0
+	}
+}
+impl monitor::bridge::CompactModel for Narrow {
+	fn bits() -> u8 {
+		8
+	}
+	fn to_u128(&self) -> u128 {
+		self.0 as u128
+	}
+	fn from_u128(x: u128) -> Self {
+		Narrow(x as u32 & 0xff)
+	}
+}
+
+/// a `#[codec(compact)]` field of the fallible `CompactAs` type
+#[derive(Encode, Decode, Debug, PartialEq)]
+pub struct SNarrow {
+	#[codec(compact)]
+	pub n: Narrow,
+	pub tail: u16,
+}
+impl Modelled for SNarrow {
+	fn ty() -> Ty {
+		Ty::Struct { name: "SNarrow".into(), fields: vec![FieldTy::as_(Ty::u(1), Ty::Compact { bits: 8 }), FieldTy::plain(Ty::u(2))] }
+	}
+	fn to_val(&self) -> Val {
+		Val::Tuple(vec![Val::Int(self.n.0 as u128), self.tail.to_val()])
+	}
+	fn from_val(v: &Val) -> Self {
+		let f = fields(v);
+		SNarrow { n: Narrow(u8::from_val(&f[0]) as u32), tail: u16::from_val(&f[1]) }
+	}
+}
+
 /// generic struct with a `HasCompact` bound
 #[derive(Encode, Decode, DecodeWithMemTracking, Debug, PartialEq)]
 pub struct SGenCompact<T: HasCompact> {
